@@ -1,22 +1,24 @@
 #!/bin/bash
 # Developer helper (not a registered check): run quick checks against each behaviour-preserving refactoring in
-# /verif/benign (scratch worktree of /repo HEAD + patch under /tmp/wt/b-<id>; removed afterwards unless KEEP=1).
-# All checks must stay silent.  usage: [KEEP=1] [PROPS="C02 C07"] tools/benign_check.sh [id ...]
+# /verif/benign (scratch worktree of /repo HEAD + patch under /tmp/wt/b-<id>; removed afterwards unless KEEP=1),
+# JOBS at a time.  All checks must stay silent.  usage: [KEEP=1] [PROPS="C02 C07"] tools/benign_check.sh [id ...]
 cd /verif
 IDS="$@"; [ -z "$IDS" ] && IDS=$(ls benign)
-PROPS=${PROPS:-all}
-for ID in $IDS; do
+export PROPS=${PROPS:-all} KEEP WIDTH
+one() {
+  ID=$1
   V=/tmp/wt/b-$ID
   if [ ! -d $V ]; then
-    git -C /repo worktree add --detach $V HEAD >/dev/null 2>&1 || { echo "$ID: cannot create worktree"; continue; }
-    if ! git -C $V apply /verif/benign/$ID/patch.diff 2>/dev/null; then echo "$ID: PATCH DOES NOT APPLY TO HEAD"; git -C /repo worktree remove --force $V; continue; fi
+    git -C /repo worktree add --detach $V HEAD >/dev/null 2>&1 || { echo "$ID: cannot create worktree"; return; }
+    if ! git -C $V apply /verif/benign/$ID/patch.diff 2>/dev/null; then echo "$ID: PATCH DOES NOT APPLY TO HEAD"; git -C /repo worktree remove --force $V; return; fi
   fi
   OUT=""
   for Pp in $PROPS; do OUT="$OUT
 $(SGZ_REPO=$V SGZ_EVIDENCE_DIR=/tmp/ev-b-$ID ./check $Pp --tier quick 2>&1)"; done
   N=$(echo "$OUT" | grep -cE "^(FINDING|ANALYSIS-ERROR)")
-  echo "$ID: $N alarms"
-  echo "$OUT" | grep -E "^(FINDING|ANALYSIS-ERROR)" | cut -c1-${WIDTH:-260}
+  { echo "$ID: $N alarms"; echo "$OUT" | grep -E "^(FINDING|ANALYSIS-ERROR)" | cut -c1-${WIDTH:-260} | sed "s/^/$ID:   /"; }
   rm -rf /tmp/ev-b-$ID
   [ -z "$KEEP" ] && git -C /repo worktree remove --force $V >/dev/null 2>&1
-done
+}
+export -f one
+echo $IDS | tr ' ' '\n' | xargs -P ${JOBS:-8} -I{} bash -c 'one {}' 2>/dev/null | sort
